@@ -34,7 +34,9 @@ int main(void){
 #endif
   uk_readonly(buf, (size_t)n * sizeof(CH));
 
+  mm_armed = 1;
   rc = U(uriParseSingleUriExMm)(&uri, buf, buf + n, &errorPos, &mm);
+  mm_armed = 0;
 
   /* ---- oracle G */
   { int s = 0, accepts; long deadpos = -1, lit_open = -1, dead_lit_open = -1; int dead_in_lit = 0;
